@@ -971,3 +971,51 @@ func TestKnown_C18_PeriodicCheckNeverLearnsFirstLeader(t *testing.T) {
 		t.Fatalf("VIOLATION-REPRODUCED: follower without a watch, live record names X, three periodic checks later LeaderID=%q", st.LeaderID)
 	}
 }
+
+// C14.forwarder_gives_up_when_the_watch_is_stopped: the goroutine that forwards the NATS watcher's updates blocked for
+// ever in its send when the consumer stopped reading with two deliveries pending (the initial value and the end-of-
+// initial-values marker of a watch on an existing key are already two): one goroutine leaked per stopped watch
+// (pointed out by a sub-agent while seeding C14).
+func TestKnown_C14_ForwarderLeaksAfterStop(t *testing.T) {
+	ctx, cancel := context.WithCancel(context.Background())
+	defer cancel()
+	srv, err := StartEmbeddedNATSServer(ctx)
+	if err != nil {
+		t.Skipf("embedded server: %v", err)
+	}
+	defer func() { _ = StopEmbeddedNATSServer(srv) }()
+	conn, err := nats.Connect(srv.ClientURL())
+	if err != nil {
+		t.Skipf("connect: %v", err)
+	}
+	defer conn.Close()
+	if err := CreateKVBucket(conn, "kf-watch", 10*time.Second); err != nil {
+		t.Fatal(err)
+	}
+	defer func() { _ = CleanupKVBucket(conn, "kf-watch") }()
+	js, _ := conn.JetStream()
+	nkv, _ := js.KeyValue("kf-watch")
+	if _, err := nkv.Create("g", []byte(`{"id":"X","token":"tx"}`)); err != nil {
+		t.Fatal(err)
+	}
+	ad := &natsKeyValueAdapter{kv: nkv}
+	time.Sleep(100 * time.Millisecond)
+	before := runtime.NumGoroutine()
+	const n = 20
+	for i := 0; i < n; i++ {
+		w, err := ad.Watch("g")
+		if err != nil {
+			t.Fatal(err)
+		}
+		_ = w.Updates() // taken, never read: the initial value and the marker stay pending
+		time.Sleep(20 * time.Millisecond)
+		w.Stop()
+	}
+	deadline := time.Now().Add(3 * time.Second)
+	for time.Now().Before(deadline) && runtime.NumGoroutine() > before+n/2 {
+		time.Sleep(50 * time.Millisecond)
+	}
+	if after := runtime.NumGoroutine(); after > before+n/2 {
+		t.Fatalf("VIOLATION-REPRODUCED: %d goroutines before, %d after %d watches that were opened, left unread and stopped", before, after, n)
+	}
+}
